@@ -70,6 +70,74 @@ def ref_candidates_for_pc(dw, pc):
     return set()
 
 
+def judge_lines(S, v, dw, rows, src, nlines, ctx):
+    """every line 1..N+2 of one source file is turned into breakpoint addresses; `rows` are the reference rows of that file in
+    every compilation unit that has code for it"""
+    # ---------------- line -> addresses (before start: answers are file addresses)
+    stmt_by_line = {}
+    for r in rows:
+        if r.is_stmt and not r.end_seq and r.line > 0:
+            sp = dw.func_for_pc(r.addr)
+            if sp is None:
+                continue
+            stmt_by_line.setdefault(r.line, {}).setdefault(sp.off, set()).add(r.addr)
+    for line in range(1, nlines + 3):
+        r = S.cmd('break_line', file=src, line=line)
+        want = stmt_by_line.get(line) or stmt_by_line.get(line + 1)
+        used_line = line if stmt_by_line.get(line) else line + 1
+        v.count('line_queries')
+        if 'ok' not in r:
+            if want:
+                v.violation('c04:line:no-breakpoint-for-line-with-code', 'a line (or its successor) has statements but no breakpoint could be set',
+                            dict(ctx, line=line, err=r.get('err')))
+            continue
+        views = r['ok']
+        addrs = [vw['addr']['addr'] for vw in views]
+        if not want:
+            v.violation('c04:line:breakpoint-for-line-without-code', 'a breakpoint was set for a line although neither it nor the next line has code',
+                        dict(ctx, line=line, addrs=[hex(a) for a in addrs]))
+        else:
+            got_by_sp = {}
+            bad = None
+            for a in addrs:
+                sp = dw.func_for_pc(a)
+                if sp is None or sp.off not in want or a not in want[sp.off]:
+                    bad = a
+                    break
+                got_by_sp.setdefault(sp.off, []).append(a)
+            if bad is not None:
+                rows = dw.rows_at(bad)
+                v.violation('c04:line:address-is-not-a-statement-of-the-line',
+                            'an address chosen for a file:line breakpoint is not an is_stmt row of that line (or of the next line when the line has no code)',
+                            dict(ctx, line=line, used_line=used_line, addr=hex(bad), rows=[repr(x) for x in rows]))
+            else:
+                missing = [o for o in want if o not in got_by_sp]
+                dup = [o for o, l in got_by_sp.items() if len(l) > 1]
+                if missing:
+                    names = [dw.by_off[o].name() if o in dw.by_off else hex(o) for o in missing]
+                    feat = 'generic-or-multi-instance' if len(want) > 1 else 'single'
+                    # the missing instances' rows of this line all sit at another column than the chosen place
+                    chosen_cols = {x.col for a_ in addrs for x in dw.rows_at(a_) if x.line == used_line}
+                    miss_cols = {x.col for o in missing for a_ in want[o] for x in dw.rows_at(a_) if x.line == used_line}
+                    if chosen_cols and miss_cols and not (chosen_cols & miss_cols):
+                        feat = 'instance-rows-at-a-different-column'
+                    v.violation(f'c04:line:instance-without-breakpoint:{feat}',
+                                'a function or instantiation that contains the line got no breakpoint',
+                                dict(ctx, line=line, used_line=used_line, missing=names, got=[hex(a) for a in addrs], want_instances=len(want)))
+                if dup:
+                    v.violation('c04:line:two-breakpoints-in-one-instance', 'one function instance got more than one breakpoint for a line',
+                                dict(ctx, line=line, got=[hex(a) for a in addrs]))
+                if len(want) > 1:
+                    v.count('multi_instance_line_queries')
+            # the place reported must be the place of the address
+            for vw in views:
+                pl = vw.get('place')
+                if pl and (pl['line'] != used_line or pl['addr'] != vw['addr']['addr']):
+                    v.violation('c04:line:view-place-mismatch', 'the place attached to a line breakpoint is not the requested line / its own address',
+                                dict(ctx, line=line, view=vw))
+        S.cmd('remove_line', file=src, line=line)
+
+
 def run_case(spec):
     idx, cfg, tier = spec
     v = Verdict('C04', tier, '')
@@ -87,69 +155,7 @@ def run_case(spec):
     ctx = {'binary': prep.b.path, 'src': srcpath, 'cfg': cfg}
     try:
         S.launch()
-        # ---------------- line -> addresses (before start: answers are file addresses)
-        stmt_by_line = {}
-        for r in prep.user_rows:
-            if r.is_stmt and not r.end_seq and r.line > 0:
-                sp = dw.func_for_pc(r.addr)
-                if sp is None:
-                    continue
-                stmt_by_line.setdefault(r.line, {}).setdefault(sp.off, set()).add(r.addr)
-        for line in range(1, nlines + 3):
-            r = S.cmd('break_line', file=src, line=line)
-            want = stmt_by_line.get(line) or stmt_by_line.get(line + 1)
-            used_line = line if stmt_by_line.get(line) else line + 1
-            v.count('line_queries')
-            if 'ok' not in r:
-                if want:
-                    v.violation('c04:line:no-breakpoint-for-line-with-code', 'a line (or its successor) has statements but no breakpoint could be set',
-                                dict(ctx, line=line, err=r.get('err')))
-                continue
-            views = r['ok']
-            addrs = [vw['addr']['addr'] for vw in views]
-            if not want:
-                v.violation('c04:line:breakpoint-for-line-without-code', 'a breakpoint was set for a line although neither it nor the next line has code',
-                            dict(ctx, line=line, addrs=[hex(a) for a in addrs]))
-            else:
-                got_by_sp = {}
-                bad = None
-                for a in addrs:
-                    sp = dw.func_for_pc(a)
-                    if sp is None or sp.off not in want or a not in want[sp.off]:
-                        bad = a
-                        break
-                    got_by_sp.setdefault(sp.off, []).append(a)
-                if bad is not None:
-                    rows = dw.rows_at(bad)
-                    v.violation('c04:line:address-is-not-a-statement-of-the-line',
-                                'an address chosen for a file:line breakpoint is not an is_stmt row of that line (or of the next line when the line has no code)',
-                                dict(ctx, line=line, used_line=used_line, addr=hex(bad), rows=[repr(x) for x in rows]))
-                else:
-                    missing = [o for o in want if o not in got_by_sp]
-                    dup = [o for o, l in got_by_sp.items() if len(l) > 1]
-                    if missing:
-                        names = [dw.by_off[o].name() if o in dw.by_off else hex(o) for o in missing]
-                        feat = 'generic-or-multi-instance' if len(want) > 1 else 'single'
-                        # the missing instances' rows of this line all sit at another column than the chosen place
-                        chosen_cols = {x.col for a_ in addrs for x in dw.rows_at(a_) if x.line == used_line}
-                        miss_cols = {x.col for o in missing for a_ in want[o] for x in dw.rows_at(a_) if x.line == used_line}
-                        if chosen_cols and miss_cols and not (chosen_cols & miss_cols):
-                            feat = 'instance-rows-at-a-different-column'
-                        v.violation(f'c04:line:instance-without-breakpoint:{feat}',
-                                    'a function or instantiation that contains the line got no breakpoint',
-                                    dict(ctx, line=line, used_line=used_line, missing=names, got=[hex(a) for a in addrs], want_instances=len(want)))
-                    if dup:
-                        v.violation('c04:line:two-breakpoints-in-one-instance', 'one function instance got more than one breakpoint for a line',
-                                    dict(ctx, line=line, got=[hex(a) for a in addrs]))
-                    if len(want) > 1:
-                        v.count('multi_instance_line_queries')
-                # the place reported must be the place of the address
-                for vw in views:
-                    pl = vw.get('place')
-                    if pl and (pl['line'] != used_line or pl['addr'] != vw['addr']['addr']):
-                        v.violation('c04:line:view-place-mismatch', 'the place attached to a line breakpoint is not the requested line / its own address',
-                                    dict(ctx, line=line, view=vw))
-            S.cmd('remove_line', file=src, line=line)
+        judge_lines(S, v, dw, prep.user_rows, src, nlines, ctx)
         # ---------------- function -> address
         insns = set(a - base for a in prep.insn_addrs())
         names = sorted({sp.name for sp in prep.user_funcs if sp.name and not sp.name.startswith('{')})
@@ -241,6 +247,89 @@ def run_case(spec):
     return v.export()
 
 
+def two_crate_sources(seed):
+    """a library crate whose generic functions are instantiated in the binary's compilation unit while its plain functions stay in
+    the library's unit: one source file with code in two units. Functions follow each other without a blank line, so the line after
+    a generic function's last line is the first line of a function that lives in the other unit."""
+    import random
+    rng = random.Random(seed)
+    L = ['#![allow(dead_code, unused)]']
+    names = []
+    for i in range(rng.randint(3, 5)):
+        g, p_ = f'zq_gen{i}', f'zq_plain{i}'
+        L.append(f'pub fn {g}<T: Copy + PartialOrd>(xs: &[T]) -> T {{')
+        L.append('    let mut best = xs[0];')
+        for _ in range(rng.randint(0, 2)):
+            L.append('    let first = xs[0];')
+        L.append('    for &x in xs {')
+        L.append('        if x > best {')
+        L.append('            best = x;')
+        L.append('        }')
+        L.append('    }')
+        L.append('    best')
+        L.append('}')
+        if rng.random() < 0.3:
+            L.append('')
+        L.append(f'pub fn {p_}(v: u64) -> u64 {{')
+        L.append(f'    let w = v.wrapping_mul({rng.randint(3, 99)});')
+        L.append('    w ^ 5')
+        L.append('}')
+        if rng.random() < 0.5:
+            L.append('// a comment line')
+        names.append((g, p_))
+    L.append('pub mod inner {')
+    L.append('    pub fn zq_mod_plain(v: u32) -> u32 { v + 1 }')
+    L.append('    pub fn zq_mod_gen<T: Clone>(t: &T) -> T {')
+    L.append('        t.clone()')
+    L.append('    }')
+    L.append('}')
+    M = ['#![allow(dead_code, unused)]', 'extern crate zqml;', 'fn main() {', '    let mut acc = 0u64;']
+    for g, p_ in names:
+        M.append(f'    acc += zqml::{g}(&[3u64, 9, 4]);')
+        M.append(f'    acc += zqml::{g}(&[2u8, 7]) as u64;')
+        if rng.random() < 0.5:
+            M.append(f'    acc += zqml::{g}(&[1.5f64, 0.5]) as u64;')
+        M.append(f'    acc = zqml::{p_}(acc);')
+    M.append('    acc += zqml::inner::zq_mod_plain(3) as u64 + zqml::inner::zq_mod_gen(&7u16) as u64;')
+    M.append('    println!("{}", acc);')
+    M.append('}')
+    return '\n'.join(L) + '\n', '\n'.join(M) + '\n'
+
+
+def two_crate_case(spec):
+    """file:line breakpoints in a source file that has code in two compilation units"""
+    idx, tc, tier = spec
+    from . import corpus, dwarfref
+    v = Verdict('C04', tier, '')
+    libsrc, mainsrc = two_crate_sources(common.seed() * 100 + idx)
+    try:
+        lib = corpus.compile_rust('zqml', libsrc, corpus.Config(tc=tc, crate_type='rlib'), {})
+        b = corpus.compile_rust(f'twocrate{idx}', mainsrc, corpus.Config(tc=tc, extra=('--extern', f'zqml={lib.path}')), {})
+        dw = dwarfref.DwarfRef(b.path, [b.src, lib.src])
+    except Exception as e:
+        v.inconc('prepare-failed', str(e)[-300:])
+        return v.export()
+    src = os.path.basename(lib.src)
+    rows = dw.user_file_rows(src)
+    units = {r.file[0] for r in rows if not r.end_seq and r.line > 0}
+    ctx = {'binary': b.path, 'src': lib.src, 'leg': 'two-crates', 'units_with_code_for_the_file': len(units)}
+    if len(units) < 2:
+        v.inconc('file-has-code-in-one-unit-only', ctx)
+        return v.export()
+    S = Session(b, v, mon=False)
+    try:
+        S.launch()
+        judge_lines(S, v, dw, rows, src, len(libsrc.split('\n')), ctx)
+        v.count('two_unit_files')
+        v.case(signature=('c04-two-crates', idx, tc), sample={'library': src, 'units': len(units), 'toolchain': tc})
+    except Crash as c:
+        v.violation(f'crash:{c.kind}:{(c.info or {}).get("panic", {}).get("loc") if c.kind == "panic" else (c.info or {}).get("cmd")}',
+                    f'debugger {c.kind} during lookups', {'info': c.info, 'history': S.history[-10:], 'binary': b.path}, prop='C08')
+    finally:
+        S.close()
+    return v.export()
+
+
 def _prep(p):
     idx, cfg = p
     try:
@@ -267,5 +356,10 @@ def main(tier):
         specs = [(i, c, tier) for i in range(12) for c in cfgs]
     common.parallel_map(_prep, sorted({(s[0], tuple(sorted(s[1].items()))) for s in specs}))
     for res in common.safe_map(run_case, specs):
+        V.merge(res)
+    # a source file with code in two compilation units (library crate with generics instantiated in the binary)
+    V.minima['two_unit_files'] = 3 if tier == 'quick' else 30
+    tw = [(i, ('1.89', '1.95')[i % 2], tier) for i in range(4 if tier == 'quick' else 40)]
+    for res in common.safe_map(two_crate_case, tw):
         V.merge(res)
     return V.finish()
